@@ -1,6 +1,6 @@
 """Text for MANIFEST.json (kept next to props.py so that MANIFEST states what exists)."""
 
-HOOK_COMMITS = ["d18659f", "3e13ff0", "29045de", "c69ab95"]
+HOOK_COMMITS = ["d18659f", "3e13ff0", "29045de", "c69ab95", "e8b7467", "0cebe19"]
 
 NOTES = ("Technique family: machine-checked proof in Lean 4. Every claimed property = theorems in lean/LalModel/Props/<id>.lean "
          "about executable models + a correspondence check that runs the real lal code (built from /repo's working tree) and the "
